@@ -8,6 +8,7 @@
      clock.beats2secs(beat) in the ClockScheduler, ClockTask._wakeup sets the logical time to
      that value and the routine then reads clock.beats = secs2beats of it
    * histories: the four state-changing operations, folded over a list
+   * one task pending in the scheduler while the clock changes (pend, retime, run_pend)
    * a small interpreter of "queries" (one constructor per public method) used by the
      correspondence to run recorded sessions against the regenerated definitions. *)
 From Coq Require Import ZArith QArith List Bool.
@@ -56,6 +57,33 @@ Fixpoint run (s : clockstate) (h : list op) : option clockstate :=
   | o :: r => match step s o with Some s' => run s' r | None => None end
   end.
 
+(* ---- a task pending in the scheduler ----------------------------------------------------
+   NRT: ClockTask keeps the beat it is due at (`beats`) and sits in the ClockScheduler queue under
+   clock.beats2secs(beats); ClockScheduler.retime(clock), called by the NRT branch of the setters whose
+   regenerated flag <setter>_retimes is true, files it again under the NEW clock.beats2secs(beats).
+   RT: the clock's own queue is keyed by the beat; the logical time of the wake-up is
+   beats2secs(beat) in the state of that moment, i.e. the same two numbers. *)
+Record pend := mkPend { p_beats : num; p_secs : num }.
+Definition sched_abs_nrt (s : clockstate) (beat : num) : pend := mkPend beat (py_beats2secs s beat).
+Definition retime (s : clockstate) (p : pend) : pend := mkPend (p_beats p) (py_beats2secs s (p_beats p)).
+Definition op_retimes (o : op) : bool :=
+  match o with
+  | OTempo _ _ => py_tempo_set_retimes | OEtempo _ _ => py_etempo_retimes
+  | OBeats _ _ => py_beats_set_retimes | OMeter _ _ => py_beats_per_bar_set_retimes
+  end.
+Definition step_pend (s : clockstate) (o : op) (p : pend) : option (clockstate * pend) :=
+  match step s o with
+  | Some s' => Some (s', if op_retimes o then retime s' p else p)
+  | None => None
+  end.
+Fixpoint run_pend (s : clockstate) (h : list op) (p : pend) : option (clockstate * pend) :=
+  match h with
+  | [] => Some (s, p)
+  | o :: r => match step_pend s o p with Some (s', p') => run_pend s' r p' | None => None end
+  end.
+(* ClockTask._wakeup(time): the logical time becomes `time`; the routine reads clock.beats *)
+Definition wake_beat_of (s : clockstate) (p : pend) : num := py_secs2beats s (p_secs p).
+
 (* ---- sessions for the correspondence --------------------------------------------- *)
 Inductive query :=
 | KTempo | KBeatDur | KBeatsPerBar | KBaseBar | KBaseBarBeat
@@ -91,27 +119,49 @@ Definition eval (s : clockstate) (k : query) : num :=
 
 Inductive action :=
 | ASet (o : op) (expect : list (Z * Z * Z))   (* canonical state after; [] = the call raised *)
-| AAsk (k : query) (expect : Z * Z * Z).
+| AAsk (k : query) (expect : Z * Z * Z)
+| APlay (id : N) (now : num) (a : quantarg)   (* Routine(id).play(clock, a) / clock.play(.., a) *)
+| APlayNextBar (id : N) (now : num)
+| AWake (id : N) (eb es : Z * Z * Z).         (* routine id first ran: clock.beats, clock.seconds *)
+
+Fixpoint find_pend (id : N) (l : list (N * pend)) : option pend :=
+  match l with
+  | [] => None
+  | (j, p) :: r => if N.eqb id j then Some p else find_pend id r
+  end.
+Definition retime_all (s : clockstate) (l : list (N * pend)) : list (N * pend) :=
+  map (fun jp => (fst jp, retime s (snd jp))) l.
 
 (* None iff every recorded observation equals what the model computes, else the index of the
    first one that does not (0 = the constructor, i+1 = action i); a raising setter leaves the
    state as it was (all raises of these methods precede their first assignment) *)
-Fixpoint replay_bad (s : clockstate) (l : list action) (i : N) : option N :=
+(* rt = true: the session ran on a real clock thread, whose queue is keyed by beats: a pending task always
+   follows the current map, whatever the NRT branch of the setters does *)
+Fixpoint replay_bad (rt : bool) (s : clockstate) (pl : list (N * pend)) (l : list action) (i : N) : option N :=
   match l with
   | [] => None
   | ASet o e :: r =>
       match step s o with
-      | Some s' => if canon_list_eqb (canon_state s') e then replay_bad s' r (N.succ i) else Some i
-      | None => match e with [] => replay_bad s r (N.succ i) | _ => Some i end
+      | Some s' => if canon_list_eqb (canon_state s') e
+                   then replay_bad rt s' (if rt || op_retimes o then retime_all s' pl else pl) r (N.succ i) else Some i
+      | None => match e with [] => replay_bad rt s pl r (N.succ i) | _ => Some i end
       end
-  | AAsk k e :: r => if canon_eqb (canon (eval s k)) e then replay_bad s r (N.succ i) else Some i
+  | AAsk k e :: r => if canon_eqb (canon (eval s k)) e then replay_bad rt s pl r (N.succ i) else Some i
+  | APlay id now a :: r => replay_bad rt s ((id, sched_abs_nrt s (play_beat s now a)) :: pl) r (N.succ i)
+  | APlayNextBar id now :: r => replay_bad rt s ((id, sched_abs_nrt s (py_play_next_bar s now)) :: pl) r (N.succ i)
+  | AWake id eb es :: r =>
+      match find_pend id pl with
+      | Some p => if canon_eqb (canon (wake_beat_of s p)) eb && canon_eqb (canon (p_secs p)) es
+                  then replay_bad rt s pl r (N.succ i) else Some i
+      | None => Some i
+      end
   end.
 
 (* a session starts with the constructor: TempoClock(tempo, beats, seconds) at thread time now *)
-Definition session_bad (now t b x : num) (e0 : list (Z * Z * Z)) (l : list action) : option N :=
+Definition session_bad (rt : bool) (now t b x : num) (e0 : list (Z * Z * Z)) (l : list action) : option N :=
   match py_init clock_blank now t b x with
-  | Some s => if canon_list_eqb (canon_state s) e0 then replay_bad s l 1%N else Some 0%N
+  | Some s => if canon_list_eqb (canon_state s) e0 then replay_bad rt s [] l 1%N else Some 0%N
   | None => match e0 with [] => None | _ => Some 0%N end
   end.
-Definition session_ok (now t b x : num) (e0 : list (Z * Z * Z)) (l : list action) : bool :=
-  match session_bad now t b x e0 l with None => true | Some _ => false end.
+Definition session_ok (rt : bool) (now t b x : num) (e0 : list (Z * Z * Z)) (l : list action) : bool :=
+  match session_bad rt now t b x e0 l with None => true | Some _ => false end.
